@@ -3,7 +3,7 @@
 # no check may print a VIOLATION line. Note: changes that alter pinned output text make the existing suite fail;
 # that is expected and irrelevant here.
 here=$(cd "$(dirname "$0")/.." && pwd)
-out="$here/mutants/benign/RESULTS.txt"; : > "$out"
+out="$here/mutants/benign/RESULTS.txt"; [ $# -eq 0 ] && : > "$out"
 "$here/tools/build.sh" || exit 3
 for m in ${@:-$here/mutants/benign/*.py}; do
   name=$(basename "$m" .py)
